@@ -111,7 +111,7 @@ def subPanics (a b : Coins) : Bool := Coins.isAnyNegative (Coins.sub a b)
 
 def createOperator (e : Env) (l : Ledger) (s : State) (a : Addr) (coll : Coins) (proposer : Addr) :
     Except Err (Ledger × State) :=
-  if !Coins.isAllPositive coll then err "oracle:invalid-coins"
+  if !Coins.isAllPositive coll then err "basic:oracle:invalid-coins"
   else if isOp s a then err "oracle:operator-exists"
   else if belowMin e s coll then err "oracle:not-enough-collateral"
   else
@@ -134,7 +134,7 @@ def removeOperator (e : Env) (l : Ledger) (s : State) (a : Addr) : Except Err (L
       | .ok l' => .ok (l', delOp s2 a)
 
 def addCollateral (e : Env) (l : Ledger) (s : State) (a : Addr) (inc : Coins) : Except Err (Ledger × State) :=
-  if !Coins.isAllPositive inc then err "oracle:invalid-coins"
+  if !Coins.isAllPositive inc then err "basic:oracle:invalid-coins"
   else match findOp s a with
   | none => err "oracle:no-operator"
   | some o =>
@@ -145,7 +145,7 @@ def addCollateral (e : Env) (l : Ledger) (s : State) (a : Addr) (inc : Coins) : 
     | .ok l' => .ok (l', s2)
 
 def reduceCollateral (e : Env) (l : Ledger) (s : State) (a : Addr) (dec : Coins) : Except Err (Ledger × State) :=
-  if !Coins.isAllPositive dec then err "oracle:invalid-coins"
+  if !Coins.isAllPositive dec then err "basic:oracle:invalid-coins"
   else match findOp s a with
   | none => err "oracle:no-operator"
   | some o =>
